@@ -143,11 +143,12 @@ Inductive sdecl : decl -> Prop :=
     forallb hitem_plain hdr = true -> Forall (fun a => alen_val a <> None) arrays ->
     sdecl d -> starts_star d = true ->
     sdecl (D hdr None (Some (None, d)) [] arrays)
-(* a pointer to a function without parameters: hdr ( d ) ( )   or   hdr ( d ) ( void ) *)
-| SD2 : forall hdr d void,
+(* a pointer to a function without parameters: hdr ( d ) ( )   or   hdr ( d ) ( void ),
+   with __cdecl or __stdcall allowed after the first parenthesis *)
+| SD2 : forall hdr d abi void,
     forallb hitem_plain hdr = true ->
     sdecl d -> starts_star d = true ->
-    sdecl (D hdr None (Some (None, d)) [F [] void false] []).
+    sdecl (D hdr None (Some (abi, d)) [F [] void false] []).
 
 Definition hkind (h : hitem) : kind :=
   match h with HStar => KChar c_star | HQ q => qkind q | HAbi a => KKw (if a then K_stdcall else K_cdecl) end.
@@ -172,7 +173,9 @@ Fixpoint sdecl_toks (d : decl) : kinds_texts :=
   | D hdr _ group funcs arrays =>
     map (fun h => (hkind h, hitem_token h)) hdr
     ++ match group with
-       | Some (_, d') => [(KChar c_lpar, [c_lpar])] ++ sdecl_toks d' ++ [(KChar c_rpar, [c_rpar])]
+       | Some (None, d') => [(KChar c_lpar, [c_lpar])] ++ sdecl_toks d' ++ [(KChar c_rpar, [c_rpar])]
+       | Some (Some a, d') => [(KChar c_lpar, [c_lpar]); (hkind (HAbi a), sp_abi a)]
+                              ++ sdecl_toks d' ++ [(KChar c_rpar, [c_rpar])]
        | None => []
        end
     ++ List.concat (map fs_toks funcs)
